@@ -10,7 +10,7 @@ CLAIMS = {
   "text": "Decides the finite tables and coverage clauses of the class reader on every run: class_constants (205 opcode values, 17 pool tags, 9 handle "
           "kinds, atype, attribute names, magic) against the JVMS; for each of the 256 opcode bytes and 256 wide sub-opcodes the second-pass arm "
           "(Instruction variant, implied local index, operand bytes consumed, operand kind: pool-entry kind / label / local) and its agreement with "
-          "the label-creating first pass; switch shapes; PoolRead::read tag -> layout -> variant -> slot count, as_X destructuring, method-handle kind "
+          "the label-creating first pass; switch shapes; PoolRead::read tag -> layout -> variant -> slot count (the numeric payloads Integer/Float/Long/Double are one read of the full width), as_X destructuring, method-handle kind "
           "table, loadable/constant-value kind sets; no table filled by the reader is dropped (write-only accumulator) and every visitor method has a "
           "call site; attribute dispatch per location; the nine access-flag conversion tables (field <-> JVMS mask); verification-type, frame-type, "
           "element-value, target-type, type-path tag tables and 4-byte alignment. (R01.13) every counted loop of the reader (`for _ in 0..count`) delivers one element per iteration: no continue/break, every push unconditional; (R01.11) switch padding evaluated at stream positions 0..7. Premises evaluated with it: C17 R17.4 (the tree builder stores each group where the replay reads it) and C02 R02.1 attr-source. (R01.5 now an accessor x entry-kind table evaluated with the pool module inlined; R01.14) a lazily resolved pool value depends on every payload field of its entry on every successful path (no memo keyed by part of the entry); (R01.15) the i16/i32 branch-target helpers evaluated at boundary probes over the whole in-range domain; premise C17 R17.7: the tree builder never declines a class, field or method.",
